@@ -43,6 +43,16 @@ def main():
             if req.get("only_ids"):
                 us = [u for u in us if u["id"] in req["only_ids"]]
             batches.append((fam, us))
+    # pinned witness universes of recorded findings for this property (always run, so that a listed finding is shown on
+    # every run and its disappearance after a repair is noticed)
+    wdir = os.path.join(os.path.dirname(os.path.dirname(os.path.abspath(__file__))), "witnesses", prop)
+    if "replay" not in req and os.path.isdir(wdir):
+        ws = []
+        for fn in sorted(os.listdir(wdir)):
+            if fn.endswith(".json"):
+                ws.append(json.load(open(os.path.join(wdir, fn))))
+        if ws:
+            batches.append(("witness", ws))
     for fam, us in batches:
         fam_counts[fam] = fam_counts.get(fam, 0) + len(us)
         for prof in ("dev", "release"):
